@@ -59,26 +59,32 @@ NA = {}
 
 # ---------------------------------------------------------------- domain-operation histories (C03, C04, C05, C16)
 import random
+import zlib
 import gen
 
 # DOM id -> (name, extra args, weight class)
 DOMS = {
-    1: ("interval_domain", {}), 2: ("split_dbm(bignum weights)", {}), 3: ("split_dbm(default int64 weights)", {"cr": 6}),
-    4: ("sparse_dbm(bignum weights)", {}), 5: ("split_oct(default int64 weights)", {"cr": 6}), 6: ("constant_domain", {}),
+    1: ("interval_domain", {}), 2: ("split_dbm(bignum weights)", {}), 3: ("split_dbm(default int64 weights)", {"cr": 4}),
+    4: ("sparse_dbm(bignum weights)", {}), 5: ("split_oct(default int64 weights)", {"cr": 4}), 6: ("constant_domain", {}),
     7: ("sign_domain", {}), 8: ("sign_constant_domain", {}), 9: ("numerical_congruence_domain<intervals>", {}),
     10: ("dis_interval_domain", {}), 11: ("flat_boolean_numerical_domain<intervals>", {}), 12: ("reduced_product<intervals,zones>", {}),
     13: ("powerset_domain<intervals>", {}), 14: ("product_value_partitioning_domain<intervals>", {}),
-    15: ("lookahead_widening_domain<split_oct>", {"cr": 6}), 16: ("numerical_packing_domain<intervals>", {}),
+    15: ("lookahead_widening_domain<split_oct>", {"cr": 4}), 16: ("numerical_packing_domain<intervals>", {}),
     17: ("fixed_tvpi_domain<zones>", {}), 18: ("term_domain<intervals>", {}), 19: ("uf_domain", {}),
     20: ("array_smashing<intervals>", {}), 21: ("array_adaptive_domain<intervals>", {}),
     22: ("abstract_domain_ref over intervals", {}), 23: ("abstract_domain_ref over zones", {}),
-    24: ("split_dbm(safe int64 weights)", {"cr": 6}), 25: ("congruence_domain", {}),
+    24: ("split_dbm(safe int64 weights)", {"cr": 4}), 25: ("congruence_domain", {}),
 }
 BITW_OPS = (".and.", ".or.", ".xor.")
 
 
-def dom_job(dom, seq, mode="sound", budget=120, soft=False, what=""):
+MACHINE_WEIGHT = (3, 5, 15, 24)
+
+
+def dom_job(dom, seq, mode="sound", budget=120, soft=False, what="", tier="quick"):
     args = dict(DOMS[dom][1])
+    if dom in MACHINE_WEIGHT:  # every symbolic constant is concretised over its range: keep 2 (quick) / 3 of them
+        seq = gen.limit_sym(seq, 2 if tier == "quick" else 3, random.Random(zlib.crc32(seq.encode())))
     args["seq"] = seq
     if mode != "sound":
         args["mode"] = mode
@@ -95,21 +101,21 @@ def hist_jobs(tier, seed, doms_full, doms_light, focus=None, ngen_quick=24, ngen
         core = [s for s in core if any(gen.opname(o) in focus for o in s.split(","))]
     for d in doms_full:
         for s in core:
-            J.append(dom_job(d, s, mode, budget=240 if tier == "quick" else 900))
+            J.append(dom_job(d, s, mode, budget=400 if tier == "quick" else 1200, tier=tier))
     stride = 3 if tier == "quick" else 1
     for d in doms_light:
         for s in core[d % stride::stride]:
-            J.append(dom_job(d, s, mode, budget=240 if tier == "quick" else 900))
+            J.append(dom_job(d, s, mode, budget=400 if tier == "quick" else 1200, tier=tier))
     rng = random.Random(1000 + seed)
     n = ngen_quick if tier == "quick" else ngen_thorough
     hs = gen.histories(rng, n, 3 if tier == "quick" else 4, focus)
     for i, (shape, s) in enumerate(hs):
         ds = doms_full if tier == "thorough" else [doms_full[i % len(doms_full)]]
         for d in ds:
-            J.append(dom_job(d, s, mode, budget=60 if tier == "quick" else 300, soft=True))
+            J.append(dom_job(d, s, mode, budget=60 if tier == "quick" else 300, soft=True, tier=tier))
         if doms_light:
             d = doms_light[i % len(doms_light)]
-            J.append(dom_job(d, s, mode, budget=60 if tier == "quick" else 300, soft=True))
+            J.append(dom_job(d, s, mode, budget=60 if tier == "quick" else 300, soft=True, tier=tier))
     return J
 
 
@@ -132,3 +138,115 @@ HIST_OUT = ["histories longer than 8 operations, more than 2+2 variables", "cons
             "int_conv operations (crab's numerical domains treat casts as assignments of mathematical integers by design)", "third-party domains (Apron, Elina, Boxes/LDD, PPLite are not built in this tree)", "rationals"]
 
 PROPS["C03"] = dict(jobs=c03_jobs, explanation=HIST_EXPL, bounds=HIST_BOUNDS, outside=HIST_OUT, assumptions=E2_ASSUME)
+
+ALL_LIGHT = [3, 4, 5, 6, 7, 8, 9, 10, 11, 12, 13, 14, 15, 16, 17, 18, 19, 20, 21, 24, 25]
+LATTICE_OPS = ("leq", "join", "joineq", "meet", "meeteq")
+WIDEN_OPS = ("wid", "widt", "nar")
+
+
+def c04_jobs(tier, seed):
+    return hist_jobs(tier, seed, [1, 2], ALL_LIGHT, focus=LATTICE_OPS, ngen_quick=40, ngen_thorough=400)
+
+
+PROPS["C04"] = dict(
+    jobs=c04_jobs,
+    explanation="Inclusion test and lattice operations of the real domains on pairs of values built by operation histories (incl. values over different variable sets): "
+                "a<=a, bottom<=a, a<=top, is_bottom/is_top vs make_*/set_to_*; whenever a<=b answers yes, the concrete state carried with a must be described by b (at(), exported constraints); "
+                "join/|= contains a state of either operand (symbolic choice), meet/&= a common state. " + HIST_EXPL,
+    bounds=HIST_BOUNDS, outside=HIST_OUT, assumptions=E2_ASSUME)
+
+
+def c05_jobs(tier, seed):
+    J = hist_jobs(tier, seed, [1, 2], ALL_LIGHT, focus=WIDEN_OPS, ngen_quick=30, ngen_thorough=300)
+    # scalar ranking facts (valid for chains of any length)
+    for op in ("widen", "narrow"):
+        J.append(Job("c08_itv", {"op": op}, what="interval %s: contains both / ranking fact (result equals left operand or has more infinite bounds)" % op))
+    # every analysis run terminates on every path of the program family (step watchdog = path budget)
+    for pr in FWD_PROGS:
+        for (wd, di) in ((0, 0), (1, 2)) if tier == "quick" else ((0, 0), (1, 1), (2, 2), (1, 2)):
+            for d in (1, 2):
+                J.append(fwd_job(d, pr, wd, di, 0, tier))
+    return J
+
+
+def c16_jobs(tier, seed):
+    J = []
+    core = gen.core()
+    stride = 2 if tier == "quick" else 1
+    for d in [1, 2, 4, 5, 9, 10, 12, 13, 18]:
+        for s in core[d % stride::stride]:
+            J.append(dom_job(d, s, "c16q", budget=400 if tier == "quick" else 1200, tier=tier))
+    for d in (22, 23):
+        for s in core:
+            J.append(dom_job(d, s, "c16w", budget=400, tier=tier))
+        for s in core[d % 3::3]:
+            J.append(dom_job(d, s, "sound", budget=400, tier=tier))
+    # copy-then-mutate histories in sound mode: every observation of the untouched value is unchanged
+    cp = [s for s in core if "cpy" in s]
+    for d in [1, 2, 3, 4, 5, 10, 12, 13, 17, 18, 20, 21]:
+        for s in cp:
+            J.append(dom_job(d, s, "sound", budget=400, tier=tier))
+    rng = random.Random(3000 + seed)
+    n = 20 if tier == "quick" else 300
+    for i, (shape, s) in enumerate(gen.histories(rng, n, 3, None)):
+        d = [1, 2, 4, 12, 18][i % 5]
+        J.append(dom_job(d, s, "c16q", budget=60 if tier == "quick" else 300, soft=True, tier=tier))
+        J.append(dom_job(22 + i % 2, s, "c16w", budget=60 if tier == "quick" else 300, soft=True, tier=tier))
+    return J
+
+
+PROPS["C16"] = dict(
+    jobs=c16_jobs,
+    explanation="Value semantics of the real domains: (1) after b = a (copy assignment, copy construction + move assignment) an operation on either leaves every observation of the other unchanged "
+                "(at() bounds of every variable, is_bottom), decided after every step of a history; (2) differential runs of the same history with and without interleaved read-only queries, "
+                "normalize() and minimize(): identical observations at the end; (3) the same history on the unwrapped domain and on abstract_domain_ref (copy-on-write wrapper): identical observations. " + HIST_EXPL,
+    bounds=HIST_BOUNDS, outside=HIST_OUT + ["observations are at() bounds, is_bottom, is_top and soundness of exported constraints; structural equality of representations is not compared"],
+    assumptions=E2_ASSUME)
+
+# ---------------------------------------------------------------- program-level (C01, C02, C05c)
+FWD_PROGS = ["straight", "diamond", "loop", "loop2", "nested", "selfloop", "entryloop", "irreducible", "unreach", "ops", "bools", "boolstale"]
+# which constants of each program are symbolic in the default job
+FWD_SYM = {"straight": "0,2,3", "diamond": "0,1,3", "loop": "0,1,2", "loop2": "0,1,2", "nested": "0,1", "selfloop": "0,1,2", "entryloop": "0,1",
+           "irreducible": "1,2", "unreach": "0,2", "ops": "0,1,3", "bools": "0,1,2", "boolstale": "0,1,2"}
+
+
+def fwd_job(dom, prog, wd, di, thr, tier, live=0, sym=None, budget=400, soft=False):
+    args = {"prog": prog, "wd": wd, "di": di, "thr": thr, "live": live, "sym": sym if sym is not None else FWD_SYM[prog]}
+    if dom in MACHINE_WEIGHT:
+        args["range"] = 3
+        args["sym"] = ",".join(args["sym"].split(",")[:2])
+    return Job("fwd", args, defines=("DOM=%d" % dom,), budget=budget, what="%s on %s" % (DOMS[dom][0], prog), witnesses=1, soft=soft)
+
+
+def c01_jobs(tier, seed):
+    J = []
+    params = [(1, 1, 0), (0, 0, 0), (2, 2, 5)] if tier == "quick" else [(w, d, t) for w in (0, 1, 2) for d in (0, 1, 2) for t in (0, 5)]
+    doms_full = [1, 2]
+    doms_light = [3, 4, 5, 9, 10, 11, 12, 13, 14, 16, 17, 18, 20, 21, 6, 7, 8, 25]
+    for pr in FWD_PROGS:
+        for (wd, di, thr) in params:
+            for d in doms_full:
+                J.append(fwd_job(d, pr, wd, di, thr, tier))
+        for d in doms_full:
+            J.append(fwd_job(d, pr, 1, 1, 0, tier, live=1))
+    for i, d in enumerate(doms_light):
+        progs = FWD_PROGS if tier == "thorough" else FWD_PROGS[i % 3::3]
+        for pr in progs:
+            J.append(fwd_job(d, pr, 1, 1, 0, tier))
+    return J
+
+
+FWD_EXPL = ("The real intra_fwd_analyzer (WTO, interleaved fixpoint iterator, intra_abs_transformer, liveness pruning, the selected abstract domain) is run on each skeleton of the program family "
+            "with SYMBOLIC program constants (all paths of the analysis are explored); then the reference interpreter executes the same cfg object from an arbitrary initial state with symbolic havoc "
+            "values and forking goto choices; at every block entry/exit reached z3 decides state in gamma_obs(get_pre/get_post): not bottom, value in at(v), exported constraints hold. "
+            "The assertion checker's SAFE / UNREACHABLE verdicts are compared with the assertion outcomes seen by the interpreter.")
+FWD_BOUNDS = {"quick": "12 skeletons (<= 7 blocks: straight line, diamond, simple/nested/self/entry/irreducible loops, unreachable and non-exiting blocks, arithmetic ops, Booleans), <= 3 symbolic constants each (unbounded; +-3 around defaults for machine-weight DBMs), executions of <= 14 block visits; (delay,descending,thresholds) in {(1,1,0),(0,0,0),(2,2,5)} on intervals and zones + liveness pruning; (1,1,0) on 18 further domains for a third of the skeletons",
+              "thorough": "all 18 parameter settings on intervals and zones, all skeletons on all domains"}
+FWD_OUT = ["programs outside the family (structure is concrete; 'all programs' is bounded to it)", "executions longer than 14 block visits", "arrays / references (C14, C15)", "alternative entry blocks and assumption maps (covered for the engine by C06)"]
+PROPS["C01"] = dict(jobs=c01_jobs, explanation=FWD_EXPL, bounds=FWD_BOUNDS, outside=FWD_OUT, assumptions=E2_ASSUME + ["the reference interpreter sym/interp.hpp defines the concrete semantics of CrabIR (unsigned ops only on non-negative operands, shifts by 0..6, bitwise ops on 12-bit values)"])
+PROPS["C05"] = dict(
+    jobs=c05_jobs,
+    explanation="(a) widening/narrowing inside operation histories: result of || (and widening_thresholds with symbolic thresholds) describes a state of either argument; narrowing of a decreasing pair describes the state of its second argument; "
+                "(b) interval widening ranking fact for chains of any length; (c) termination: every path of every analysis run of the program family (symbolic constants) must finish - a diverging value would be a path that never ends and is reported as NO-VERDICT/path-too-long. " + HIST_EXPL,
+    bounds=HIST_BOUNDS, outside=HIST_OUT + ["ranking argument for zones/octagons (number of finite edges) is not observable through the public API; covered only through bounded chains in histories and analysis runs"],
+    assumptions=E2_ASSUME)
